@@ -21,6 +21,18 @@ def fe_arg(v, m, mode): return (b32(v % 2**256), m, mode)
 def rmag(rng, lo, hi): return rng.choice((lo, hi, hi, rng.randint(lo, hi)))
 def rmode(rng, m): return 1 if (m >= 4 and rng.random() < 0.5) else 0
 
+def steer(rng, M):
+    """a target RESULT in the regions where the last folding / conditional-subtraction steps of a modular reduction do
+    something (value before the final step in [M, 2^256 + 8c), c = 2^256 - M): operands are then derived from the target,
+    which random or edge-valued operands reach with probability ~2^-127 only (seeded change C05-1)."""
+    c = 2**256 - M; k = rng.randrange(6) % 5
+    if k == 0: t = rng.randrange(0, 2 * c)      # value before the final step in [M, 2^256 + c): both final corrections active
+    elif k == 1: t = rng.randrange(0, 9) * c + rng.choice((0, 1, -1, rng.randrange(2**20), -rng.randrange(2**20), rng.randrange(2**64), rng.randrange(min(c, 2**120))))
+    elif k == 2: t = M - 1 - rng.choice((0, 1, rng.randrange(2**20), rng.randrange(8 * c)))
+    elif k == 3: t = (1 << rng.randrange(257)) + rng.choice((0, -1, 1, rng.randrange(2**30)))
+    else: t = rng.randrange(0, c) + rng.randrange(1, 5) * c
+    return t % M
+
 def wl_field(ctx, config, scale):
     rng = ctx.rng; V = ctx.sh(config)
     for it in range(int(ctx.n(6000, 120000) * scale)):
@@ -44,6 +56,9 @@ def wl_field(ctx, config, scale):
             elif op == "cmp_var": ma = rmag(rng, 1, 32); mb = rmag(rng, 1, 32)
             else: ma = rmag(rng, 1, 32); mb = rmag(rng, 1, 32)
             flag = rng.randrange(2)
+            if op in ("add", "mul", "mul_inplace") and am and rng.random() < 0.3:
+                t = steer(rng, p); bm = (t - am) % p if op == "add" else t * pow(am, -1, p) % p
+                b = bm + p if (bm + p < 2**256 and rng.random() < 0.3) else bm
             r = ctx.call("fe2", op, *fe_arg(a, ma, rmode(rng, ma)), *fe_arg(b, mb, rmode(rng, mb)), flag, config=config)
             if r is None: continue
             ctx.ev("fe_" + op, "mag%d_%d" % (ma, mb), True, op, a, ma, b, mb, flag)
@@ -64,6 +79,15 @@ def wl_field(ctx, config, scale):
         if op == "add_int": k = rng.choice((0, 1, 7, 0x7FFF, rng.randrange(0x8000)))
         if op in ("normalizes_to_zero", "normalizes_to_zero_var", "is_zero") and rng.random() < 0.5: a = rng.choice((0, p, 2 * p if 2 * p < 2**256 else p)); am = 0
         if op in ("sqrt", "is_square_var") and rng.random() < 0.5: t = pools.field(rng) % p; a = t * t % p; am = a
+        if op in ("sqr", "sqr_inplace", "inv", "inv_var", "half", "negate") and rng.random() < 0.3:
+            t = steer(rng, p)
+            if op in ("sqr", "sqr_inplace"):
+                while fsqrt(t) is None: t = steer(rng, p)
+                am = fsqrt(t) if rng.random() < 0.5 else p - fsqrt(t)
+            elif op in ("inv", "inv_var"): am = pow(t, -1, p) if t else 0
+            elif op == "half": am = 2 * t % p
+            else: am = (-t) % p
+            a = am + p if (am + p < 2**256 and rng.random() < 0.3) else am
         r = ctx.call("fe1", op, *fe_arg(a, m, rmode(rng, m)), k, config=config)
         if r is None: continue
         ctx.ev("fe_" + op, "mag%d" % m, True, op, a, m, k)
@@ -101,6 +125,13 @@ def wl_scalar(ctx, config, scale):
         elif op == "get_bits_var": k2 = rng.randrange(1, 33); k1 = rng.randrange(0, 257 - k2)
         elif op == "set_u64": k1 = pools.u64(rng)
         elif op == "eq" and rng.random() < 0.4: b = a; bm = am
+        elif op in ("mul", "add", "inverse", "inverse_var", "half", "negate") and am and rng.random() < (0.5 if op == "mul" else 0.3):
+            t = steer(rng, n)
+            if op == "mul": bm = t * pow(am, -1, n) % n; b = bm + n if (bm + n < 2**256 and rng.random() < 0.2) else bm
+            elif op == "add": bm = (t - am) % n; b = bm
+            elif op in ("inverse", "inverse_var"): am = pow(t, -1, n) if t else 0; a = am
+            elif op == "half": am = 2 * t % n; a = am
+            else: am = (-t) % n; a = am
         r = ctx.call("sc", op, b32(a), b32(b), k1, k2, config=config)
         if r is None: continue
         ctx.ev("scalar_" + op, "ge_n" if a >= n else "lt_n", True, op, a, b, k1, k2)
@@ -129,6 +160,25 @@ def wl_scalar(ctx, config, scale):
         elif op == "set_u64": ok = v1 == k1
         else: ok = False
         ctx.check(ok, "scalar_%s:wrong_result" % op, "a=%x b=%x k1=%d k2=%d -> %r" % (a, b, k1, k2, r), config)
+
+def wl_reduce(ctx, config, scale):
+    """products and squares whose RESULT is steered into the final-correction regions, in bulk (cheap calls)"""
+    rng = ctx.rng
+    for it in range(int(ctx.n(4000, 60000) * scale)):
+        if it % 2 == 0:
+            t = steer(rng, n); a = pools.scalar(rng, 0.2) % n or 1; b = t * pow(a, -1, n) % n
+            if it % 8 == 0: a, b = b, a
+            r = ctx.call("sc", "mul", b32(a), b32(b), 0, 0, config=config)
+            if r is None: continue
+            ctx.ev("scalar_mul", "steered", True, "mul", a, b)
+            ctx.check(I(r.b(1)) == t, "scalar_mul:wrong_result", "steered a=%x b=%x want=%x got=%x" % (a, b, t, I(r.b(1))), config)
+        else:
+            t = steer(rng, p); a = pools.field(rng, 0.2) % p or 1; b = t * pow(a, -1, p) % p
+            ma = rmag(rng, 1, 8); mb = rmag(rng, 1, 8); op = "mul" if it % 4 == 1 else "mul_inplace"
+            r = ctx.call("fe2", op, *fe_arg(a, ma, rmode(rng, ma)), *fe_arg(b, mb, rmode(rng, mb)), 0, config=config)
+            if r is None: continue
+            ctx.ev("fe_" + op, "steered", True, op, a, ma, b, mb)
+            ctx.check(I(r.b(1)) == t, "fe_%s:wrong_result" % op, "steered a=%x(m%d) b=%x(m%d) want=%x got=%x" % (a, ma, b, mb, t, I(r.b(1))), config)
 
 def s64(x): return x - 2**64 if x >= 2**63 else x
 def wl_int128(ctx, config, scale):
@@ -383,5 +433,5 @@ def wl_hash(ctx, config, scale):
 def run(ctx):
     for i, config in enumerate(ctx.configs):
         scale = 1.0 if i == 0 else (0.35 if ctx.quick else 0.5)
-        wl_field(ctx, config, scale); wl_scalar(ctx, config, scale); wl_int128(ctx, config, scale)
+        wl_field(ctx, config, scale); wl_scalar(ctx, config, scale); wl_reduce(ctx, config, scale); wl_int128(ctx, config, scale)
         wl_group(ctx, config, scale); wl_ecmult(ctx, config, scale); wl_hash(ctx, config, scale)
